@@ -187,6 +187,45 @@ theorem no_target_gets_error (c : Cfg) (s : Sess) (msg : ClientMsg) (hid : msg.i
     ∃ d, serve c s msg = [.respond d s.sid msg.id .error] :=
   unserviceable_gets_error c s msg hid hlt (by simp [served, reachable_none_of_target c s msg h])
 
+/-- a route function that PANICS for this session: `RouteService.doRoute` recovers, `Route` answers
+`""`, no target is found — the request gets exactly one error response at once and no handler runs
+(a `doRoute` that lets the panic escape leaves the client without any response: the panic is swallowed
+by the owner's task loop and nothing was registered that could time out) -/
+theorem route_panic_gets_error (c : Cfg) (f : String → Sess → Option String) (hc : c.route = doRoute f)
+    (s : Sess) (msg : ClientMsg) (hid : msg.id ≠ 0) (hlt : msg.id < idWrap)
+    (ht : (splitClientRoute msg.route).1 ≠ c.frontType) (hp : f (splitClientRoute msg.route).1 s = none) :
+    serve c s msg = [.respond 0 s.sid msg.id .error] := by
+  have he : envelope msg = msg := by
+    cases msg with
+    | mk i r p => simp only [envelope, ClientMsg.mk.injEq, and_true]; exact Nat.mod_eq_of_lt hlt
+  simp [serve, serveWith, he, processWith, ht, forward, hc, doRoute, hp, fixed, hid]
+
+/-- … and a notification routed by a panicking route function has no effect at all -/
+theorem route_panic_notify_dropped (c : Cfg) (f : String → Sess → Option String) (hc : c.route = doRoute f)
+    (s : Sess) (msg : ClientMsg) (hid : msg.id = 0)
+    (ht : (splitClientRoute msg.route).1 ≠ c.frontType) (hp : f (splitClientRoute msg.route).1 s = none) :
+    serve c s msg = [] := by
+  have he : envelope msg = msg := by
+    cases msg with
+    | mk i r p => simp only [envelope, ClientMsg.mk.injEq, and_true]; subst hid; rfl
+  simp [serve, serveWith, he, processWith, ht, forward, hc, doRoute, hp, fixed, hid]
+
+/-- `StartAcceptor`'s loop builds, for every connection queued by the acceptor, exactly one session, on
+that connection, in arrival order — however many connections arrive together -/
+theorem accept_serves_each_connection_once (conns : List Nat) :
+    acceptLoop conns = conns ∧ ∀ c, servedBy (acceptLoop conns) c = conns.count c := by
+  have h : acceptLoop conns = conns := by
+    induction conns with
+    | nil => rfl
+    | cons a t ih => simp [acceptLoop, ih]
+  exact ⟨h, fun c => by simp [servedBy, h]⟩
+
+/-- witness (not the code): session creation deferred to a goroutine that reads the shared loop
+variable when it runs — three connections arriving together, all three sessions on the last one, the
+first two connections served by nobody -/
+theorem accept_deferred_witness :
+    acceptDeferred [1, 2, 3] (fun _ => 2) = [3, 3, 3] ∧ servedBy (acceptDeferred [1, 2, 3] (fun _ => 2)) 1 = 0 := by decide
+
 /-- a forwarded request whose envelope `remote.Serialize` cannot marshal (route not valid UTF-8):
 nothing is sent, exactly one error response -/
 theorem unserialisable_envelope_gets_error (c : Cfg) (s : Sess) (msg : ClientMsg) (hid : msg.id ≠ 0) (hlt : msg.id < idWrap)
@@ -384,6 +423,11 @@ example := request_served_by_target c0 s1 ⟨5, "chat.zoo.echo", .valid 3⟩ (by
 example := response_origin_is_target c0 s1 ⟨5, "chat.zoo.echo", .valid 3⟩ (by decide) (by decide) 0 7 5 "chat-1" "zoo" "echo" 3 (by decide)
 example := unserviceable_gets_error c0 s0 ⟨5, "chat.zoo.echo", .valid 3⟩ (by decide) (by decide) (by decide)
 example := no_target_gets_error c0 ⟨9, some "chat-7", false⟩ ⟨5, "chat.zoo.echo", .valid 3⟩ (by decide) (by decide) (by decide)
+example := route_panic_gets_error c0 (tieRouteFn false) rfl ⟨9, some "#7", true⟩ ⟨5, "chat.zoo.echo", .valid 3⟩ (by decide) (by decide) (by decide) (by decide)
+example := route_panic_notify_dropped c0 (tieRouteFn false) rfl ⟨9, some "#7", true⟩ ⟨0, "chat.zoo.tell", .valid 3⟩ rfl (by decide) (by decide)
+example : serve c0 ⟨9, some "#7", true⟩ ⟨5, "chat.zoo.echo", .valid 3⟩ = [.respond 0 9 5 .error] := by decide
+example : serve c0 ⟨9, some "#7", true⟩ ⟨5, "hall.zoo.echo", .valid 3⟩ = [.invoke "hall-1" "zoo" "echo" 3, .respond 0 9 5 (.data "hall-1" "zoo" "echo" 3)] := by decide
+example : servedBy (acceptLoop [4, 5, 6]) 4 = 1 := by decide
 example := unknown_method_gets_error c0 s1 ⟨5, "chat.zoo.nosuch", .valid 3⟩ (by decide) (by decide) (by decide)
 example := request_to_notify_method_gets_error c0 s1 ⟨5, "gate.zoo.tell", .valid 3⟩ (by decide) (by decide) .ok (by decide)
 example := malformed_route_gets_error c0 s1 ⟨5, "gate.zoo.echo.x", .valid 3⟩ (by decide) (by decide) (by decide) (by decide)
@@ -517,6 +561,33 @@ theorem shared_exactly_one (c : Cfg) (evs : List Ev) (hq : Quiet (Shared.run c {
   rw [h1, h2, h3, hd] at this
   simpa using this
 
+/-- THE ACCEPT LOOP DISCHARGES `wellUsed`: `StartAcceptor` builds one session per accepted connection and
+`NewClientSession` posts its `AddSession` (`OnSessionCreate`) before `s.Handle()` starts the reader that
+posts the connection's messages — so for ANY batch of connections arriving together and ANY schedule of
+sends, owner steps, back-end steps, replies, timers, expiries, lost and duplicated replies and further
+opens after it, short of a close, every accepted connection is well used … -/
+theorem accepted_connections_well_used (conns : List Nat) (evs : List Ev) (hnc : ∀ sid, Ev.close sid ∉ evs)
+    (cn : Nat) (hcn : cn ∈ conns) :
+    wellUsed cn false ((acceptLoop conns).map Ev.open ++ evs) = true := by
+  rw [(accept_serves_each_connection_once conns).1, wellUsed_opens]
+  have : conns.contains cn = true := by simpa using hcn
+  rw [this]
+  exact wellUsed_true_of_no_close cn evs hnc
+
+/-- … hence loses nothing, and at rest has exactly one response per request (no hypothesis about the
+connection left) -/
+theorem accepted_connections_exactly_one (c : Cfg) (conns : List Nat) (evs : List Ev) (hnc : ∀ sid, Ev.close sid ∉ evs)
+    (hq : Quiet (Shared.run c {} ((acceptLoop conns).map Ev.open ++ evs))) (cn : Nat) (hcn : cn ∈ conns) (i : Nat) (hi : i ≠ 0) :
+    droppedCount (Shared.run c {} ((acceptLoop conns).map Ev.open ++ evs)) cn i = 0 ∧
+    answers (Shared.run c {} ((acceptLoop conns).map Ev.open ++ evs)) cn i = sentCount cn i evs := by
+  have hw := accepted_connections_well_used conns evs hnc cn hcn
+  refine ⟨shared_nothing_dropped c _ cn hw i, ?_⟩
+  rw [shared_exactly_one c _ hq cn i hi hw, (accept_serves_each_connection_once conns).1]
+  clear hw hq hcn
+  induction conns with
+  | nil => rfl
+  | cons a t ih => simpa [sentCount] using ih
+
 /-- … and that state is always reachable: from EVERY state of every schedule the owner, the expiry
 scan and the timers alone (no help from any back-end) bring the front to rest — no request can stay
 unanswered for ever (the forwarded ones because of the request timeout). -/
@@ -618,6 +689,12 @@ example : Quiet (Shared.run c0 {} sched1) := by
   refine ⟨?_, ?_, ?_⟩ <;> decide
 example := shared_exactly_one c0 sched1 (by refine ⟨?_, ?_, ?_⟩ <;> decide) 7 5 (by decide) (by decide)
 example := shared_nothing_dropped c0 sched1 8 (by decide) 5
+-- sched1 = the accept loop's opens of connections 7 and 8 arriving together, then traffic without a close
+example : sched1 = (acceptLoop [7, 8]).map Ev.open ++ sched1.drop 2 := rfl
+example : ∀ sid, Ev.close sid ∉ sched1.drop 2 := by intro sid h; simp [sched1] at h
+example := accepted_connections_well_used [7, 8] (sched1.drop 2) (by intro sid h; simp [sched1] at h) 8 (by decide)
+example := (accepted_connections_exactly_one c0 [7, 8] (sched1.drop 2) (by intro sid h; simp [sched1] at h)
+  (by refine ⟨?_, ?_, ?_⟩ <;> decide) 7 (by decide) 5 (by decide)).2
 example : sentCount 7 5 sched1 = 1 ∧ sentCount 8 5 sched1 = 1 ∧ sentCount 8 0 sched1 = 1 := by decide
 -- mid-schedule: one answered nothing yet, three requests in flight
 example : inFlight (Shared.run c0 {} (sched1.take 16)) 7 5 = 1 ∧ answers (Shared.run c0 {} (sched1.take 16)) 7 5 = 0 := by
